@@ -5,10 +5,10 @@ import json, subprocess, os
 ENV = "GOFLAGS=-mod=mod GOPROXY=off GOSUMDB=off GOTOOLCHAIN=local"
 
 CHECKS = {
- "C01": ("exploration", "honest issuance of types 1,2,3,5 with every message crossing the wire as bytes, over keys x challenge lengths (0..65535) x nonces x batch sizes x origin-name lengths x fixed/random blinds; validity decided by circl FullEvaluate / crypto/rsa.VerifyPSS and a byte-exact token layout assembled by the harness",
+ "C01": ("exploration", "honest issuance of types 1,2,3,5 with every message crossing the wire as bytes (also into long-lived issuer-side request objects), over keys x challenge lengths (0..65535) x nonces x batch sizes x origin-name lengths x fixed/random blinds; validity decided by circl FullEvaluate / crypto/rsa.VerifyPSS and a byte-exact token layout assembled by the harness",
          "trusted: circl oprf/blindrsa, go-hpke, crypto/rsa; client-internal randomness covered by repetition and the WithBlind entry points",
          "runtime monitoring: independent-verifier oracle over generated honest executions"),
- "C02": ("exploration", "FinalizeToken(s) on honest, corrupted and foreign responses: every single-bit flip of each honest response (exhaustive), full state x response cross-pairing, type-5 drops/duplications/swaps/extra elements/foreign proofs, interleaved lifecycles of up to 4 outstanding requests; universal oracle (nil error => token valid under the request's key and bound to the request) plus the rejection list of the statement",
+ "C02": ("exploration", "FinalizeToken(s) on honest, corrupted and foreign responses: every single-bit flip of each honest response (exhaustive), full state x response cross-pairing, type-5 drops/duplications/swaps/extra elements/foreign proofs, interleaved lifecycles of up to 4 outstanding requests, odd salt lengths, one client object reused across keys with colliding truncated ids; universal oracle (nil error => token valid under the request's key and bound to the request) plus the rejection list of the statement",
          "trusted: circl, crypto/rsa; per-class counters (decode / proof / count / AEAD / RSA) must all be observed",
          "runtime monitoring: universal post-condition oracle + must-reject corpus (exhaustive bit flips)"),
  "C03": ("exploration", "every byte-consuming entry point under structure-aware hostile inputs (truncations, extensions, every length/count field and varint form up to 2^62-1, type tags, splices, well-framed hostile content, HPKE-sealed hostile inner requests, hostile key/scalar arguments); each call journalled before it is made, run in child processes under RLIMIT_AS with a CPU-time stall watchdog and a calibrated allocation bound",
@@ -17,16 +17,16 @@ CHECKS = {
  "C04": ("exploration", "value round trips, accepted-bytes oracle (canonical re-encoding no longer, same value, equals Marshal also on reused objects) and type separation (every 16-bit tag x body x decoder, exhaustive) against the harness's own encoders/parsers; Rust interop vectors as independent encodings",
          "trusted: the reference encoders in props/c04.go and props/t3wire.go (written from the TLS-presentation structs)",
          "runtime monitoring: reference-codec differential oracle"),
- "C05": ("exploration", "generic batch issuance over the wire: every request-kind sequence of length 1..3/1..4 over 8 kinds under 5 issuer configurations (two with an always-refusing issuer sharing type and truncated key id) plus seeded long batches, judged by an executable model (present iff a configured issuer of that type and truncated key id evaluates the request itself), per-entry finalization under its own state and an isolation re-run",
+ "C05": ("exploration", "generic batch issuance over the wire: every request-kind sequence of length 1..3/1..4 over 8 kinds under 5 issuer configurations (two with an always-refusing issuer sharing type and truncated key id) plus seeded long and large (63..128) batches, over the wire and handed over in memory, judged by an executable model (present iff a configured issuer of that type and truncated key id evaluates the request itself), per-entry finalization under its own state and an isolation re-run",
          "trusted: circl, crypto/rsa; truncated-key-id collisions excluded by construction",
          "runtime monitoring: executable-model oracle over enumerated batch compositions"),
- "C06": ("exploration", "attester VerifyRequest on honest requests (pat-go client and harness-built), exhaustive single-bit flips of every field, forged/foreign/degenerate signatures, tampering after Marshal on decoded objects, wrong/shifted blinds, malformed keys; accept iff crypto/ecdsa.Verify and reference key blinding agree; recording cache + state snapshots show a rejected request changes nothing",
+ "C06": ("exploration", "attester VerifyRequest on honest requests (pat-go client and harness-built), exhaustive single-bit flips of every field, forged/foreign/degenerate signatures, tampering after Marshal on decoded objects and after the original was accepted by the same attester, wrong/shifted blinds, malformed keys; accept iff crypto/ecdsa.Verify and reference key blinding agree; recording cache + state snapshots show a rejected request changes nothing",
          "trusted: crypto/ecdsa, crypto/elliptic, the reference hash_to_field (internal/ref); verif-tagged VerifSnapshot hook",
          "runtime monitoring: independent accept/reject oracle + state-snapshot invariant at the cache hook"),
  "C07": ("exploration", "issuer Evaluate(bytes) on requests built by pat-go's client and entirely by the harness (own encoder, HPKE sealing, key-blinded signer): honest ones must be served and finalize to a valid token; exhaustive bit flips, truncations, missing signature, near-miss origins, foreign name keys, re-signing, request-key swap (AAD binding), AAD variants, truncated inner requests must be refused with no response",
          "acceptance is fixed by construction (the HPKE private key is not observable); trusted: go-hpke, circl blindrsa, crypto/ecdsa",
          "runtime monitoring: must-serve / must-reject corpus built by an independent request constructor"),
- "C08": ("exploration", "full rate-limited flows for 4 clients x 4 origins (two sharing an index key) x repeated requests with edge blinds, on fresh and on long-lived attesters; every index equals the reference HKDF-SHA-384 over the reference-blinded client key, Evaluate's second value equals the reference-blinded request key, distinct pairs differ, shared keys coincide",
+ "C08": ("exploration", "full rate-limited flows for 4 clients x 4 origins (two sharing an index key) x repeated requests with edge blinds, on fresh and on long-lived attesters, with retained IDs re-checked and an adversarial negated-key twin; every index equals the reference HKDF-SHA-384 over the reference-blinded client key, Evaluate's second value equals the reference-blinded request key, distinct pairs differ, shared keys coincide",
          "trusted: crypto/elliptic, crypto/hmac, SHA-2; reference XMD/HKDF in internal/ref",
          "runtime monitoring: reference-model oracle over repeated protocol runs"),
  "C09": ("exploration", "every attester call history of length <= 4 / <= 5 over 14 operations (2 clients x 2 issuer IDs x 2 anonymous IDs; honest, bad-signature and foreign-request verify) plus seeded 200-step histories, replayed against an executable model with the binding map compared after every step through the snapshot hook",
